@@ -34,6 +34,10 @@ def dataset(name, fam):
         obs[rng.choice(days, 12, replace=False)] *= 4.0
     elif name == "mild":            # balance points near the ends of the temperature range
         obs = 20 + 0.9 * np.maximum(35 - T, 0) + 1.2 * np.maximum(T - 78, 0) + rng.normal(0, 0.8, days)
+    elif name == "latecool":        # cooling only switches on during the 3 hottest days: the balance point is parked on its segment bound
+        obs = 20 + 1.2 * np.maximum(50 - T, 0) + 6.0 * np.maximum(T - np.sort(T)[-4], 0) + rng.normal(0, 1.0, days)
+    elif name == "lateheat":        # mirror image: heating only on the 3 coldest days
+        obs = 20 + 6.0 * np.maximum(np.sort(T)[3] - T, 0) + 1.2 * np.maximum(T - 65, 0) + rng.normal(0, 1.0, days)
     else:                           # short330
         obs = 22 + 1.1 * np.maximum(55 - T, 0) + 1.4 * np.maximum(T - 65, 0) + rng.normal(0, 1.0, days)
     return pd.DataFrame({"temperature": T, "observed": np.maximum(obs, 0.1)}, index=idx), {"is_electricity_data": True}
